@@ -143,11 +143,16 @@ def probe_inputs():
     for bits in (1, 8, 15, 17, 20, 25, 32, 64):
         for v in (0, 1, (1 << bits) - 1):
             probes.append((bits, v, 0, None, False))
+    for t in context_targets(False, 0):
+        probes.append((t[0], t[1], t[2], None if t[3] == "no" else t[3], t[3] != "no"))
     return probes
 
 
-def probe_fingerprints():
-    command, frame = _load()
+def probe_fingerprints(load=True):
+    if load:
+        command, frame = _load()
+    else:
+        from dali import command, frame
     out = []
     for bits, v, dt, mc, um in probe_inputs():
         try:
@@ -204,6 +209,70 @@ def pristine_baseline():
     if r.returncode != 0:
         raise RuntimeError("baseline subprocess failed: " + r.stderr[-2000:])
     return json.loads(r.stdout)
+
+
+IMPORT_HISTORIES = {
+    # what the program imported, in which order, and whether it decoded anything before the command modules
+    # were loaded.  Importing any module of dali.gear / dali.device loads the whole package (their __init__
+    # say so), after which decoding must be what it is in a program that imported everything up front.
+    "decode-before-import": (True, ["dali.gear.general", "dali.device.general"]),
+    "device-general-only-first": (False, ["dali.device.general", "dali.gear.general"]),
+    "sequences-only": (False, ["dali.sequences", "dali.device.helpers"]),
+    "leaf-modules-only": (True, ["dali.device.pushbutton", "dali.gear.led"]),
+    "drivers-only": (False, ["dali.driver.hid", "dali.device.helpers", "dali.gear"]),
+    # everything imported, then the application builds its commands/events/maps BEFORE the first frame is decoded
+    "constructions-before-first-decode": ("construct", ["dali.gear", "dali.device"]),
+}
+
+
+def import_history_fingerprints(name):
+    """Runs in a fresh interpreter (see __main__)."""
+    import importlib
+    early, mods = IMPORT_HISTORIES[name]
+    if early == "construct":
+        _load()
+        cons = constructors()
+        for k in list(range(len(cons)))[::-1] + list(range(len(cons))):
+            cons[k]()
+    elif early:
+        from dali import command, frame
+        for bits, v, dt, mc, um in probe_inputs()[::7]:
+            try:
+                command.from_frame(frame.ForwardFrame(bits, v), devicetype=dt)
+            except Exception:  # noqa - only the decodes after the imports are judged
+                pass
+    for m in mods:
+        importlib.import_module(m)
+    return probe_fingerprints(load=False)
+
+
+def import_history_check(res, name):
+    env = dict(os.environ, PYTHONHASHSEED="0", VERIF_REPO=REPO, PYTHONPATH=VERIF)
+    case = {"kind": "import-history", "name": name}
+    r = subprocess.run([sys.executable, "-B", os.path.abspath(__file__), "--import-history", name], env=env,
+                       capture_output=True, text=True, cwd=VERIF)
+    res.count(len(probe_inputs()))
+    res.nontrivial(n=len(probe_inputs()))
+    res.label("import-history:" + name, len(probe_inputs()))
+    if r.returncode != 0:
+        res.violation("C01:import-history-raised:" + name, case, "interpreter with import history %r failed: %s" % (name, r.stderr[-600:]))
+        return
+    now = json.loads(r.stdout)
+    for (inp, a, b) in zip(probe_inputs(), _BASELINE["fps"], now):
+        if a != b:
+            res.violation("C01:decode-depends-on-import-history", dict(case, input=list(inp)),
+                          "import history %r (%s%s): decode of %r gives %r, in a program that imported everything first %r"
+                          % (name, "decodes before imports, then " if IMPORT_HISTORIES[name][0] else "", IMPORT_HISTORIES[name][1], inp, b, a))
+            break
+
+
+def _import_shard(name):
+    res = Result()
+    if not _BASELINE:
+        _BASELINE.update(pristine_baseline())
+    import_history_check(res, name)
+    res.sample({"kind": "import-history", "name": name}, cls="import history")
+    return res
 
 
 def purity_check(res, where):
@@ -327,9 +396,12 @@ def context_targets(quick, seed):
         for lo in list(range(0xE0, 0x100)) + [0x00, 0x20, 0x90, 0xA0, 0xC5]:
             for dt in (0, 6, 8) if quick else (0, 1, 4, 5, 6, 7, 8):
                 ts.append((16, (hi << 8) | lo, dt, "no"))
-    for v in (0x068402, 0x0A8C05, 0xFFFE30, 0xC13005, 0x01FE1D):
+    for v in (0x068402, 0x0A8C05, 0xFFFE30, 0xC13005, 0x01FE1D,
+              0x000400, 0x020401, 0x028400, 0x008401, 0x8401, 0x03FE30, 0x01FE30, 0x43FE30, 0x0100FE, 0x0301FE):
         for mp in ("no", 1, 3):
             ts.append((24, v, 0, mp))
+    for v in (0x0000, 0x0100, 0x0200, 0x0305, 0x8205, 0x8311):     # gear short 0 / 1, group 1
+        ts.append((16, v, 0, "no"))
     return ts
 
 
@@ -425,6 +497,12 @@ def constructors():
         lambda: d.UnknownEvent(instance_type=9, short_address=1, data=77),
         lambda: d.AmbiguousInstanceType(short_address=1, instance_number=2, data=3),
         lambda: DeviceInstanceTypeMapper().add_type(short_address=1, instance_number=1, instance_type=pushbutton),
+        # bool is an int: programs do pass True/False where 1/0 is meant
+        lambda: pushbutton.ButtonReleased(short_address=True), lambda: pushbutton.ButtonPressed(short_address=False, instance_number=True),
+        lambda: light.LightEvent(short_address=True, data=True), lambda: g.DAPC(True, True), lambda: g.DAPC(False, 254),
+        lambda: d.QueryDeviceStatus(a.DeviceShort(True)), lambda: g.GoToScene(a.GearGroup(True), True),
+        lambda: a.DeviceShort(False), lambda: a.GearShort(True), lambda: a.InstanceNumber(True), lambda: a.DeviceGroup(True),
+        lambda: d.SetEventFilter(a.DeviceShort(True), a.InstanceNumber(False)),
     ]
 
 
@@ -499,6 +577,9 @@ def run_case(case):
         return run_history(case["ops"])
     if kind == "context":
         return run_context(case)
+    if kind == "import-history":
+        res = _import_shard(case["name"])
+        return [(s, v["msg"]) for s, v in res.violations.items()]
     if kind == "purity":
         res = Result()
         if not _BASELINE:
@@ -549,6 +630,7 @@ def run(ctx):
     for k in range(0, len(odd), 8):
         shards.append(("odd", odd[k:k + 8]))
     ctx.pmap(_enum_shard, shards)
+    ctx.pmap(_import_shard, sorted(IMPORT_HISTORIES))
     cops = context_ops()
     per = (len(cops) + 15) // 16
     ctx.pmap(_ctx_shard, [(cops[k:k + per], q, s) for k in range(0, len(cops), per)])
@@ -566,3 +648,7 @@ if __name__ == "__main__":
         sys.path.insert(0, os.environ.get("VERIF_REPO", "/repo"))
         sys.path.insert(1, os.path.dirname(os.path.dirname(os.path.abspath(__file__))))
         print(json.dumps({"fps": probe_fingerprints(), "registry": registry_snapshot()}))
+    if "--import-history" in sys.argv:
+        sys.path.insert(0, os.environ.get("VERIF_REPO", "/repo"))
+        sys.path.insert(1, os.path.dirname(os.path.dirname(os.path.abspath(__file__))))
+        print(json.dumps(import_history_fingerprints(sys.argv[sys.argv.index("--import-history") + 1])))
